@@ -186,3 +186,38 @@ Example ex_effective :
   SEP exC = chain_separator /\ txc exC = tx_context /\ chain exC <> [] /\
   fst (deliver exC ex_s0 (ex_tx 1 0 true)) <> ex_s0.
 Proof. repeat split; discriminate. Qed.
+
+(* ------------------------------------------------------------------ *)
+(* "An altered byte string never takes effect" is FALSE for a decoder   *)
+(* with two preimages of one envelope                                  *)
+(* ------------------------------------------------------------------ *)
+(* The signature covers (blob) and is bound to (pk, sig); it cannot cover the
+   envelope framing.  Witness decoder: a raw transaction is (payload, number of
+   trailing bytes) and the trailing bytes are ignored -- which is what
+   cbor.Unmarshal of fxamacker/cbor v2.4.0 (go/common/cbor) does on the real
+   code, like its case-insensitive match of the field names "signature",
+   "public_key", "untrusted_raw_value" (observed by harness/cmd/auth: finding
+   C09:altered-envelope-bytes-same-signed-content-executes). *)
+Definition malC : cfg (list (N * N)) (kraw * N) :=
+  {| raw_len := fun r => k_len (fst r) + snd r;
+     dec_env := fun r => k_dec_env (fst r);
+     dec_tx := dec_tx exC; hashf := hashf exC; sig_ok := sig_ok exC;
+     blacklisted := blacklisted exC; addr_of := addr_of exC; reserved := reserved exC;
+     is_system := is_system exC; has_app := has_app exC; is_critical := is_critical exC;
+     max_tx_size := max_tx_size exC; SEP := SEP exC; txc := txc exC; chain := chain exC;
+     fee_ok := fee_ok exC; fee_move_ok := fee_move_ok exC; pay_fee := pay_fee exC;
+     gas_size_ok := fun l r t => gas_size_ok exC l (fst r) t;
+     gas_price_ok := gas_price_ok exC; exec := exec exC |}.
+
+Lemma bit_flip_never_executes_refuted :
+  exists (L Raw : Type) (C : cfg L Raw) (s : state L) (raw raw' : Raw),
+    raw' <> raw /\ (forall m, is_critical C m = false) /\
+    dec_env C raw' = dec_env C raw /\
+    authenticated (snd (deliver C s raw)) = true /\
+    authenticated (snd (deliver C s raw')) = true /\
+    exec_reached (snd (deliver C s raw')) = true.
+Proof.
+  exists (list (N * N)), (kraw * N)%type, malC, ex_s0, (ex_tx 1 0 true, 0), (ex_tx 1 0 true, 2).
+  split; [discriminate|]. split; [reflexivity|]. split; [reflexivity|].
+  vm_compute. repeat split; reflexivity.
+Qed.
